@@ -1,11 +1,13 @@
 // c11conv: the Go standard library's own answers for the conversions Model/Flags.v takes as
-// parameters (time.ParseDuration, time.Duration.String) or transcribes (strconv.ParseBool).
+// parameters (time.ParseDuration, time.Duration.String) or transcribes (strconv.ParseBool, flag.FlagSet.Parse).
 // It does not import mage.  One JSON request on stdin, one JSON answer on stdout.
 package main
 
 import (
 	"encoding/json"
+	"flag"
 	"fmt"
+	"io/ioutil"
 	"os"
 	"strconv"
 	"time"
@@ -15,12 +17,73 @@ type request struct {
 	Bools   []string `json:"bools"`
 	Durs    []string `json:"durs"`
 	DurStrs []int64  `json:"durstrs"`
+	Parse   []struct {
+		Front bool     `json:"front"`
+		Words []string `json:"words"`
+	} `json:"parse"`
+}
+
+// parsed is what a real flag.FlagSet (ContinueOnError, the zero value mage uses) makes of a word list.
+type parsed struct {
+	Verdict string      `json:"verdict"` // ok | help | bad
+	Set     [][3]string `json:"set"`     // fs.Visit: name, kind (b|d|s), final value (bool / nanoseconds / verbatim)
+	Rest    []string    `json:"rest"`    // fs.Args()
+}
+
+// the flag definitions of mage/main.go:189-212 (front) and mage/template.go:70-73 (generated main): names and
+// kinds only, restated here on purpose - this program does not import mage
+func parseWords(front bool, words []string) parsed {
+	fs := flag.FlagSet{}
+	fs.SetOutput(ioutil.Discard)
+	fs.Usage = func() {}
+	bools := map[string]*bool{}
+	durs := map[string]*time.Duration{}
+	strs := map[string]*string{}
+	var bn, dn, sn []string
+	if front {
+		bn = []string{"f", "debug", "v", "h", "keep", "l", "version", "init", "clean"}
+		dn = []string{"t"}
+		sn = []string{"d", "w", "gocmd", "goos", "goarch", "ldflags", "compile"}
+	} else {
+		bn = []string{"v", "l", "h"}
+		dn = []string{"t"}
+	}
+	for _, n := range bn {
+		bools[n] = fs.Bool(n, false, "")
+	}
+	for _, n := range dn {
+		durs[n] = fs.Duration(n, 0, "")
+	}
+	for _, n := range sn {
+		strs[n] = fs.String(n, "", "")
+	}
+	err := fs.Parse(words)
+	p := parsed{Verdict: "ok", Set: [][3]string{}, Rest: []string{}}
+	if err == flag.ErrHelp {
+		p.Verdict = "help"
+	} else if err != nil {
+		p.Verdict = "bad"
+	}
+	fs.Visit(func(f *flag.Flag) {
+		if b, ok := bools[f.Name]; ok {
+			p.Set = append(p.Set, [3]string{f.Name, "b", strconv.FormatBool(*b)})
+		} else if d, ok := durs[f.Name]; ok {
+			p.Set = append(p.Set, [3]string{f.Name, "d", strconv.FormatInt(int64(*d), 10)})
+		} else if s, ok := strs[f.Name]; ok {
+			p.Set = append(p.Set, [3]string{f.Name, "s", *s})
+		}
+	})
+	if err == nil {
+		p.Rest = append(p.Rest, fs.Args()...)
+	}
+	return p
 }
 
 type answer struct {
 	Bools   []*bool  `json:"bools"`   // null = error
 	Durs    []*int64 `json:"durs"`    // nanoseconds, null = error
 	DurStrs []string `json:"durstrs"` // Duration.String()
+	Parse   []parsed `json:"parse"`
 }
 
 func main() {
@@ -47,6 +110,10 @@ func main() {
 	}
 	for _, n := range q.DurStrs {
 		a.DurStrs = append(a.DurStrs, time.Duration(n).String())
+	}
+	a.Parse = []parsed{}
+	for _, q := range q.Parse {
+		a.Parse = append(a.Parse, parseWords(q.Front, q.Words))
 	}
 	json.NewEncoder(os.Stdout).Encode(a)
 }
